@@ -165,8 +165,9 @@ def handleFromU (j : Json) : Except String Verdict := do
     -- model
     let mTree := fromUncompressed dflt d nest
     let mShape := if kind == "tensor" then calcShape d nest else fiberShape dflt d nest
-    let mUnc := uncompress dflt d dims mTree
-    let mUnc0 := if mShape.length == d + 1 then uncompress dflt d mShape mTree else none
+    let owned := kind == "tensor"
+    let mUnc := uncompress owned dflt d dims mTree
+    let mUnc0 := if mShape.length == d + 1 then uncompress owned dflt d mShape mTree else none
     let agree := optBeq (treeBeq (d + 1)) iTree (some mTree) && decide (iShape = some mShape) &&
                  optBeq (nestBeq (d + 1)) iUnc mUnc && optBeq (nestBeq (d + 1)) iUnc0 mUnc0
     -- the property, evaluated on the implementation's observation
